@@ -117,36 +117,60 @@ pub fn run(ctx: Ctx) -> ! {
     let checked = AtomicU64::new(0);
     let checked_assets = AtomicU64::new(0);
     let unreadable = AtomicU64::new(0);
+    // Byron: [accepted with mixed redeem + pk inputs, explored mixed with inputs - outputs < min fee,
+    //         accepted redeem-only paying less than the pk minimum fee]
+    let byron_mix = [AtomicU64::new(0), AtomicU64::new(0), AtomicU64::new(0)];
     let sum = explore::sweep(&ALL_ERAS, &|_| true, bounds, &|b, v, nd| {
-        if !v.accepted() {
+        if !v.accepted() && !(b.era == Era::Byron && matches!(v, Verdict::Rejected(_) | Verdict::Panicked(_))) {
             return;
         }
         if b.era == Era::Byron {
             let Some(view) = wire::byron_view(&b.tx) else {
-                unreadable.fetch_add(1, Ordering::Relaxed);
+                if v.accepted() {
+                    unreadable.fetch_add(1, Ordering::Relaxed);
+                }
                 return;
             };
             let distinct: BTreeSet<_> = view.inputs.iter().cloned().collect();
             let mut ins = BigInt::from(0);
             let mut all_redeem = true;
+            let mut any_redeem = false;
             for (h, ix) in &distinct {
                 if let Some(u) = b.utxo.iter().find(|u| u.tx_id == *h && u.ix == *ix) {
                     if let Some(o) = wire::utxo_out_view(true, &u.bytes) {
                         ins += o.value.coin;
                     }
-                    all_redeem &= byron_is_redeem(&u.bytes).unwrap_or(false);
+                    let r = byron_is_redeem(&u.bytes).unwrap_or(false);
+                    all_redeem &= r;
+                    any_redeem |= r;
                 } else {
                     all_redeem = false;
                 }
             }
+            let mixed = any_redeem && !all_redeem;
             let outs: BigInt = view.outputs.iter().sum();
-            let min_fee = if all_redeem { BigInt::from(0) } else { BigInt::from(params::MINFEE_B) + BigInt::from(params::MINFEE_A) * BigInt::from(view.size) };
+            let pk_min_fee = BigInt::from(params::MINFEE_B) + BigInt::from(params::MINFEE_A) * BigInt::from(view.size);
+            let min_fee = if all_redeem { BigInt::from(0) } else { pk_min_fee.clone() };
+            if mixed && &ins - &outs < min_fee && ins >= outs {
+                byron_mix[1].fetch_add(1, Ordering::Relaxed);
+            }
+            if !v.accepted() {
+                return;
+            }
+            if mixed {
+                byron_mix[0].fetch_add(1, Ordering::Relaxed);
+            }
+            if all_redeem && !distinct.is_empty() && &ins - &outs < pk_min_fee && ins >= outs {
+                byron_mix[2].fetch_add(1, Ordering::Relaxed);
+            }
             checked.fetch_add(1, Ordering::Relaxed);
             if &ins - &outs < min_fee {
                 let class = if distinct.len() != view.inputs.len() {
                     "duplicate-input"
                 } else if all_redeem {
                     "redeem-only-inputs"
+                } else if mixed && ins >= outs {
+                    "mixed-redeem-and-pk-inputs-fee-below-minimum"
                 } else if ins < outs {
                     "outputs-exceed-inputs"
                 } else {
@@ -201,16 +225,23 @@ pub fn run(ctx: Ctx) -> ! {
             crate::fail(&format!("C34 vacuous: no accepted case in era {}", era.name()));
         }
     }
+    let mix: Vec<u64> = byron_mix.iter().map(|x| x.load(Ordering::Relaxed)).collect();
+    if mix.iter().any(|x| *x == 0) {
+        crate::fail(&format!("C34 vacuous on Byron fee exemption: accepted mixed redeem+pk {}, explored mixed below the minimum fee {}, accepted redeem-only below the pk minimum fee {}", mix[0], mix[1], mix[2]));
+    }
     if checked_assets.load(Ordering::Relaxed) == 0 {
         crate::fail("C34 vacuous: no accepted case with native assets");
     }
     found.flush(&ctx);
     let mut cov = sum.coverage(&format!(
-        "TxLab space: every base of every era, every single deviation and every pair of deviations of different dimensions ({}); the oracle runs on every ACCEPTED case: exact per-asset balance over distinct spent inputs + mint vs outputs + fee (Byron: inputs - outputs >= min fee); non-trivial = decoded by pallas-traverse, distinct by Blake2b of (tx, UTxO, environment)",
+        "TxLab space: every base of every era, every single deviation and every pair of deviations of different dimensions ({}); the oracle runs on every ACCEPTED case: exact per-asset balance over distinct spent inputs + mint vs outputs + fee (Byron, bases with one and two inputs of every pk / redeem combination: inputs - outputs >= min fee, exempt only when EVERY input is a redeem address); non-trivial = decoded by pallas-traverse, distinct by Blake2b of (tx, UTxO, environment)",
         bounds.describe()
     ));
     cov.insert("accepted_checked".into(), json!(checked.load(Ordering::Relaxed)));
     cov.insert("accepted_checked_with_assets".into(), json!(checked_assets.load(Ordering::Relaxed)));
+    cov.insert("byron_accepted_with_mixed_redeem_and_pk_inputs".into(), json!(mix[0]));
+    cov.insert("byron_explored_mixed_inputs_paying_less_than_min_fee".into(), json!(mix[1]));
+    cov.insert("byron_accepted_redeem_only_paying_less_than_pk_min_fee".into(), json!(mix[2]));
     cov.insert("findings".into(), json!(found.summary()));
     ctx.finish(
         Level::Exploration,
